@@ -30,6 +30,7 @@ Record config := Config {
   resets : bool;     (* emptyCount reset by a successful decode? *)
   checks : bool;     (* heartbeat compares Created? *)
   guard : bool;      (* an empty file counts as stale only if it was not modified within factor * interval? *)
+  undec : bool;      (* undecodable contents are treated like an empty file (else Lock returns an error)? *)
   delta : Z;         (* H-live: heartbeat latency bound *)
   eps : Z            (* H-live: longest truncate -> write gap of a heartbeat (0 on a healthy disk) *)
 }.
@@ -191,7 +192,12 @@ Definition step (s : state) (l : label) : option state :=
                   if (S ec <? retries c)%nat || (guard c && negb (factor c * interval c <? now s - mtime s i))
                   then Some (set_cs s t (CSleep (S ec) (now s + esleep c)))
                   else Some (set_cs s t (CStale (S ec)))            (* zero meta: stale *)
-              | FGarbage => Some (set_cs s t (CFailed ErrDecode))
+              | FGarbage =>
+                  if undec c then
+                    if (S ec <? retries c)%nat || (guard c && negb (factor c * interval c <? now s - mtime s i))
+                    then Some (set_cs s t (CSleep (S ec) (now s + esleep c)))
+                    else Some (set_cs s t (CStale (S ec)))
+                  else Some (set_cs s t (CFailed ErrDecode))
               | FMeta cr u =>
                   let ec' := if resets c then O else ec in
                   if is_stale (now s) cr u then Some (set_cs s t (CStale ec'))
